@@ -44,7 +44,8 @@ func replayB1(c *core.Ctx, judgeMF, judgeSig, judgeHook, judgeM func(*b1.Result)
 		if err := json.Unmarshal(rf.Case, &s); err != nil {
 			core.Machinery("replay case: %v", err)
 		}
-		b1.Run(c, b1.Options{Name: "replay", PerFile: 1, Family: rf.Family, Compile: compile}, []*b1.Case{sigConcretise(0, &s)}, judgeSig)
+		rc := []*b1.Case{sigConcretise(0, &s)}
+		b1.Run(c, sigOptions("replay", 1, compile, rc), rc, judgeSig)
 	case "hooks":
 		if judgeHook == nil {
 			return false
